@@ -535,9 +535,9 @@ class Translator:
         for (_, t) in params:
             self.ctype(t)
         self.ctype(f.ret)
-        if cname in self.opts.get("opaque", ()):
+        if cname in self.opts.get("opaque", ()) or cname in self.opts.get("stub_bodies", ()):
             f.body = None
-            self.rule("opaque-function (assumed contract)")
+            self.rule("opaque-function (assumed contract)" if cname in self.opts.get("opaque", ()) else "probe-operation (body given by the unit's stubs)")
             return f
         body = None
         stmts = []
@@ -1141,6 +1141,9 @@ class Translator:
         if info is None:
             raise ExtractionBreak("global %s unknown" % rd.get("name"))
         ty = parse_type(info["type"])
+        if "cval" in info and ty.kind == "builtin":
+            self.rule("constant-global->literal")
+            return X("lit", info["cval"], ty=ty)
         # canonical decl: find the definition with an initialiser
         name = rd["name"]
         gname = self.opts.get("global_names", {}).get(name, "g_" + name if name in ("min", "max", "abs") else name)
